@@ -76,6 +76,10 @@ package routing
 //@   site mapupdate distance as record: assert arg(val).netAmountReceived == wrap(amountToSend + outboundFee, 64) &&
 //@        arg(val).incomingCltv == incomingCltv && arg(val).nextHop == edge && arg(key) == fromVertex &&
 //@        arg(val).netAmountReceived >= arg(val).outboundFee
+//@   // the entry remembers the node's own outbound fee (the cap for its inbound discount upstream), its fee-free of the inbound part
+//@   site mapupdate distance as outfee: assert arg(val).outboundFee == wrap(outboundFee, 64) &&
+//@        (fromVertex != source ==> outboundFee == swrap(ret(ComputeFee), 64)) && (fromVertex == source ==> outboundFee == 0) &&
+//@        arg(val).routingInfoSize == routingInfoSize
 //@   site call ComputeFee: assert arg(0) == edge.policy && arg(1) == amountToSend
 //@   site call ComputeFee: domain arg(1) <= 1<<40 && arg(0).FeeProportionalMillionths <= 1000000 && arg(0).FeeBaseMSat < 1<<32
 //@   site call CalcFee: domain arg(1) <= 1<<40 && -1000000 <= arg(0).Rate && arg(0).Rate <= 1000000 && amt <= 1<<40 && toNodeDist.outboundFee <= 1<<40 &&
@@ -120,3 +124,13 @@ package routing
 //@   props C19
 //@   ensures result != nil && result.policy == policy && result.capacity == capacity && result.inboundFees.Base == inboundFees.Base &&
 //@           result.inboundFees.Rate == inboundFees.Rate && result.blindedPayment == blindedPayment
+//@
+//@ // ---- a signed update for a hinted edge replaces all three policy values, and only if the signature verifies
+//@ func (p *paymentSession) UpdateAdditionalEdge
+//@   props C19
+//@   requires msg != nil && policy != nil
+//@   site call VerifyChannelUpdateSignature: assert arg(0) == msg && arg(1) == pubKey
+//@   ensures result ==> ret(VerifyChannelUpdateSignature) == nil && policy.TimeLockDelta == msg.TimeLockDelta &&
+//@           policy.FeeBaseMSat == msg.BaseFee && policy.FeeProportionalMillionths == msg.FeeRate
+//@   ensures ret(VerifyChannelUpdateSignature) != nil ==> !result && policy.FeeBaseMSat == old(policy.FeeBaseMSat) &&
+//@           policy.FeeProportionalMillionths == old(policy.FeeProportionalMillionths) && policy.TimeLockDelta == old(policy.TimeLockDelta)
